@@ -31,7 +31,8 @@ impl Clone for Value { #[verifier::external_body] fn clone(&self) -> (r: Self) e
 pub struct Plugin { pub _p: u8 }
 impl Clone for Plugin { #[verifier::external_body] fn clone(&self) -> (r: Self) ensures r == *self { unimplemented!() } }
 /// env mirror of the subscription table (HashMap<String, boxed callback>)
-pub struct SubMap<F> { pub p: core::marker::PhantomData<F> }
+// `id`: ghost identity (a struct of PhantomData only would be single-valued: any two values provably equal)
+pub struct SubMap<F> { pub p: core::marker::PhantomData<F>, pub id: Ghost<int> }
 impl<F> SubMap<F> {
     pub uninterp spec fn has(&self, k: Seq<char>) -> bool;
     pub uninterp spec fn at(&self, k: Seq<char>) -> F;
@@ -42,4 +43,30 @@ impl<F> SubMap<F> {
 }
 /// env mirror of PluginDriver with the real field names used by the slices; the callbacks are a
 /// generic Fn (the real ones are boxed dyn Fn)
-pub struct PluginDriver<F> { pub wildcard_subscription: Option<F>, pub subscriptions: SubMap<F> }
+pub struct PluginDriver<F> { pub wildcard_subscription: Option<F>, pub subscriptions: SubMap<F>, pub rpcmethods: SubMap<F>, pub setconfig_callback: Option<F> }
+// serde_json::Value as seen by the lookup part of dispatch_one: member access and string view (uninterpreted)
+pub uninterp spec fn jget(v: Value, k: Seq<char>) -> Option<Value>;
+pub uninterp spec fn jstr(v: Value) -> Option<Seq<char>>;
+impl Value {
+    #[verifier::external_body]
+    pub fn get(&self, k: &str) -> (r: Option<&Value>)
+        ensures match r { Some(x) => jget(*self, k@) == Some(*x), None => jget(*self, k@) is None }
+    { unimplemented!() }
+    #[verifier::external_body]
+    pub fn as_str(&self) -> (r: Option<&str>)
+        ensures match r { Some(x) => jstr(*self) == Some(x@), None => jstr(*self) is None }
+    { unimplemented!() }
+}
+impl<T> Context<T> for Option<T> {
+    #[verifier::external_body]
+    fn context(self, c: &'static str) -> (r: anyhow::Result<T>)
+        ensures self is Some ==> r == Ok::<T, AnyErr>(self->0), self is None ==> r is Err
+    { unimplemented!() }
+}
+pub trait WithContext<T>: Sized { fn with_context<C, G: FnOnce() -> C>(self, f: G) -> (r: anyhow::Result<T>); }
+impl<T> WithContext<T> for Option<T> {
+    #[verifier::external_body]
+    fn with_context<C, G: FnOnce() -> C>(self, f: G) -> (r: anyhow::Result<T>)
+        ensures self is Some ==> r == Ok::<T, AnyErr>(self->0), self is None ==> r is Err
+    { unimplemented!() }
+}
